@@ -13,7 +13,7 @@ REPO = os.environ.get("VERIF_REPO", "/repo")
 WORK = os.path.join(VERIF, "work")
 QFLAGS = ["-Q", "lib", "FT.lib", "-Q", "gen", "FT.gen", "-Q", "model", "FT.model",
           "-Q", "proofs", "FT.proofs", "-Q", "props", "FT.props"]
-GEN_MODULES = ["Common", "Interp2d", "Interp3d", "Vinterp2d", "Vinterp3d", "FteikCommon",
+GEN_MODULES = ["Flags", "Effects", "Common", "Interp2d", "Interp3d", "Vinterp2d", "Vinterp3d", "FteikCommon",
                "Fteik2d", "Fteik3d", "Ray2d", "Ray3d"]
 
 STD_AXIOMS = {
@@ -50,10 +50,14 @@ def regen():
     os.makedirs(os.path.join(COQ, "gen"), exist_ok=True)
     rc, out = sh([sys.executable, os.path.join(VERIF, "tools", "py2coq", "py2coq.py"),
                   "--pkg", os.path.join(REPO, "fteikpy"), "--out", os.path.join(COQ, "gen")])
+    rc2, out2 = sh([sys.executable, os.path.join(VERIF, "tools", "py2coq", "effects.py"),
+                    os.path.join(REPO, "fteikpy"), os.path.join(COQ, "gen", "Effects.v")])
     try:
         status = json.load(open(os.path.join(COQ, "gen", "status.json")))
     except (OSError, ValueError):
         status = {m: {"ok": False, "error": "translator crashed: " + out[-500:]} for m in GEN_MODULES}
+    status["Flags"] = {"ok": os.path.exists(os.path.join(COQ, "gen", "Flags.v"))}
+    status["Effects"] = {"ok": rc2 == 0, "error": out2[-400:]} if rc2 != 0 else {"ok": True}
     return status
 
 
